@@ -341,6 +341,7 @@ func ruleC03(prog *Program, rep *Report) {
 	applyParseResults(rep, sres, map[string]bool{"no-arm": true}, "A-noarm", 12)
 	ruleSENFollow(prog, rep)
 	ruleReaderLoops(prog, rep)
+	ruleEntryParity(prog, rep) // the []byte and the reader entry must start from the same state
 	if rep.Tier == "thorough" {
 		mutationSweep(prog, rep, union(kindsAccept, kindsEvents, kindsPanic), sweepSize())
 	}
